@@ -10,10 +10,13 @@ def main(tier, seed, t0, only=None):
     # reparse histories (valid and invalid text, reuse, destroy) with the freeing allocator: the C02 executions with the heap ledger
     import parsefam
     J += parsefam.jobs('C13', 2, tier, defines=('ALLOC_SIMPLE',), want=('free', 'nest'), nmax=(4 if q else 5))
+    import mergefam
+    J += mergefam.jobs('C13', 19, tier, defines=('ALLOC_SIMPLE',), pairs=[(24, 23), (1, 8)], twice=3, tagx='.swap-after-parseschema')
+    J += mergefam.jobs('C13', 19, tier, defines=('ALLOC_SIMPLE',), pairs=[(1, 1), (2, 7), (0, 2)], twice=0, tagx='.parseschema')
     if only: J = [j for j in J if re.search(only, j.name)]
     res = runner.run_jobs(J)
     return runner.finish('C13', tier, seed, res, 'model_checking',
                          'bounded symbolic execution (llsym/z3) of DOM operation scripts and parse/reparse histories under SimpleAllocator with a heap ledger (malloc/free accounting, use-after-free, double free) and copy-independence checks',
                          domfam.ASSUME + ['heap ledger: every malloc/new block must be freed exactly once before the harness ends; access to a freed block is a violation',
-                                          'ParseOnDemand / ParseSchema histories are covered by C10 / C19 runs, not here'], t0,
+                                          'ParseSchema histories (single application, and document Swap after ParseSchema with the other document destroyed first) run with the ledger; repeated ParseSchema is the known finding listed under C19; ParseOnDemand histories are covered by C10 runs'], t0,
                          prop_filter=lambda v: v['kind'] != 'property' or v['msg'].startswith('C13') or v['msg'].startswith('C12') or v['msg'].startswith('C02'))
